@@ -244,11 +244,18 @@ func (m *mappers) ToCharGroup(r comb.Result) (comb.Result, bool) {
 
 	items := r2.Val.(comb.List)
 
+	var others []rune
+	seen := make(map[rune]bool)
 	charMap := make([]bool, len(parser.RuneClasses["ASCII"].Runes()))
 	for _, r := range items {
 		if chars, ok := r.Bag[bagKeyChars].([]rune); ok {
 			for _, c := range chars {
-				charMap[c] = true
+				if int(c) < len(charMap) {
+					charMap[c] = true
+				} else if !seen[c] {
+					seen[c] = true
+					others = append(others, c)
+				}
 			}
 		}
 	}
@@ -258,6 +265,15 @@ func (m *mappers) ToCharGroup(r comb.Result) (comb.Result, bool) {
 		if (!neg && marked) || (neg && !marked) {
 			alt.Exprs = append(alt.Exprs, &Char{
 				Val: rune(i),
+			})
+		}
+	}
+
+	// Characters outside of the ASCII table can only be matched by a non-negated group.
+	if !neg {
+		for _, c := range others {
+			alt.Exprs = append(alt.Exprs, &Char{
+				Val: c,
 			})
 		}
 	}
